@@ -60,7 +60,7 @@ impl Base {
     fn ks(&self) -> BigUint {
         let n = &r9::params().n;
         let h1 = r9::h1(&self.id(), 0x01);
-        let k = match self.ks_rel {
+        let k = match self.ks_rel & 0x0f {
             1 => h1,
             2 => (h1 * 2u32) % n,
             3 => (h1 + n - 1u32) % n,
@@ -69,6 +69,13 @@ impl Base {
             _ => from_be(&self.ks) % (n - 1u32) + 1u32,
         };
         if k.is_zero() { BigUint::one() } else { k }
+    }
+    /// the master public key object handed to the library, in the representation selected by the high nibble of `ks_rel`
+    /// (0 affine, 1 as computed by TwistPoint::g_mul, 2 Z = 2, 3 pseudo-random Z, 4 Z with Montgomery limbs [1,0,0,0], 5 purely imaginary Z)
+    fn lib_master(&self, m: &Master) -> Sm9SignMasterKey {
+        let mut l = m.lib;
+        l.ppubs = g2_in_rep(&m.ppubs, Some(&m.ks), self.ks_rel >> 4, self.id_seed ^ self.msg_seed);
+        l
     }
     fn r(&self) -> BigUint {
         from_be(&self.r) % (&r9::params().n - 2u32) + 1u32 // the library draws r from [1, N-2]
@@ -88,7 +95,8 @@ fn check_sign(b: &Base) -> CaseResult {
     let (id, msg, r) = (b.id(), b.msg(), b.r());
     let Some(t2) = r9::extract_scalar(&m.ks, &id, 0x01) else { return pass(false, "extraction-undefined") };
     let ds_ref = r9::p1_mul(&t2);
-    let key = catch(|| m.lib.extract_key(&id)).map_err(|p| Fail { key: "entry=Sm9SignMasterKey::extract_key outcome=panic".into(), detail: p })?.ok_or_else(|| Fail { key: "entry=Sm9SignMasterKey::extract_key input=valid outcome=none".into(), detail: "".into() })?;
+    let libm = b.lib_master(&m);
+    let key = catch(|| libm.extract_key(&id)).map_err(|p| Fail { key: "entry=Sm9SignMasterKey::extract_key outcome=panic".into(), detail: p })?.ok_or_else(|| Fail { key: "entry=Sm9SignMasterKey::extract_key input=valid outcome=none".into(), detail: "".into() })?;
     let r2 = from_be(&expand_bytes(b.msg_seed ^ 0x5209, 32)) % (n - 2u32) + 1u32;
     let (res, left) = with_sm9_candidates(vec![to32(&r), to32(&r2)], || key.sign(&msg));
     let (h, s) = match res {
@@ -109,7 +117,7 @@ fn check_sign(b: &Base) -> CaseResult {
     ensure!(hv == want.0 && s_ref == want.1, "entry=Sm9SignKey::sign outcome=wrong-signature",
         "ks={:x} |ID|={} |M|={} r={:x}: library h={:x} S={} ; GM/T 0044.2 h={:x} S={}", m.ks, id.len(), msg.len(), r, hv, show1(&s_ref), want.0, show1(&want.1));
     // the library accepts its own signature
-    let v = outcome(|| m.lib.verify_sign(&id, &msg, &h, &s));
+    let v = outcome(|| libm.verify_sign(&id, &msg, &h, &s));
     ensure!(v.is_ok(), "entry=Sm9SignMasterKey::verify_sign input=own-signature outcome=rejected", "ks={:x} |ID|={} |M|={} h={:x}: {}", m.ks, id.len(), msg.len(), hv, v.describe());
     pass(true, if consumed == 1 { "fixed-r" } else { "fixed-r/library-skipped-a-candidate" })
 }
@@ -121,7 +129,7 @@ fn check_ref_signed(b: &Base) -> CaseResult {
     let Some(t2) = r9::extract_scalar(&m.ks, &id, 0x01) else { return pass(false, "extraction-undefined") };
     let Some((h, s)) = r9::sign_with_r(&r9::p1_mul(&t2), &m.g, &msg, &r) else { return pass(false, "retry-r") };
     let s_lib = lib_g1(&s, &BigUint::one());
-    let v = outcome(|| m.lib.verify_sign(&id, &msg, &to_limbs(&h), &s_lib));
+    let v = outcome(|| b.lib_master(&m).verify_sign(&id, &msg, &to_limbs(&h), &s_lib));
     ensure!(v.is_ok(), "entry=Sm9SignMasterKey::verify_sign input=conforming-signature outcome=rejected", "ks={:x} |ID|={} |M|={} h={:x}: {}", m.ks, id.len(), msg.len(), h, v.describe());
     pass(true, "reference-signed")
 }
@@ -280,7 +288,8 @@ fn check_tamper(c: &TCase) -> CaseResult {
         Some(s) => r9::verify(&verifier.ppubs, &verifier.g, &id, &msg, &h, s),
     };
     let hl = to_limbs(&(&h % (BigUint::one() << 256)));
-    let got = outcome(|| verifier.lib.verify_sign(&id, &msg, &hl, &s_lib));
+    let vlib = b.lib_master(&verifier);
+    let got = outcome(|| vlib.verify_sign(&id, &msg, &hl, &s_lib));
     let h_class = if h.is_zero() || &h >= n { "h-out-of-range" } else if h == n - 1u32 { "h=N-1" } else { "h-in-range" };
     match (&got, want) {
         (Outcome::Ok(()), true) | (Outcome::Err(_), false) => {}
@@ -305,7 +314,7 @@ fn base_strategy() -> impl Strategy<Value = Base> {
         any::<u64>(),
         gen::scalar256(&n),
     )
-        .prop_map(|(ks, id_len, id_seed, msg_len, msg_seed, r)| Base { ks, ks_rel: 0, id_len, id_seed, msg_len, msg_seed, r })
+        .prop_map(|(ks, id_len, id_seed, msg_len, msg_seed, r)| Base { ks, ks_rel: ((msg_seed % 6) as u8) << 4, id_len, id_seed, msg_len, msg_seed, r })
 }
 
 pub fn tamper_strategy() -> impl Strategy<Value = Tamper> {
@@ -334,7 +343,7 @@ fn fixed_bases(seed: u64, count: usize) -> Vec<Base> {
     (0..count)
         .map(|i| {
             let s = seed.wrapping_mul(7477) + i as u64;
-            Base { ks: gen::hex32(&BigUint::from(0xabcdef01u64 + (i as u64 % 3))), ks_rel: 0, id_len: [5usize, 3, 0, 20][i % 4], id_seed: s ^ 1, msg_len: [20usize, 0, 1, 100][i % 4], msg_seed: s ^ 2, r: Hex(expand_bytes(s ^ 3, 32)) }
+            Base { ks: gen::hex32(&BigUint::from(0xabcdef01u64 + (i as u64 % 3))), ks_rel: ((i % 6) as u8) << 4, id_len: [5usize, 3, 0, 20][i % 4], id_seed: s ^ 1, msg_len: [20usize, 0, 1, 100][i % 4], msg_seed: s ^ 2, r: Hex(expand_bytes(s ^ 3, 32)) }
         })
         .collect()
 }
@@ -342,7 +351,7 @@ fn fixed_bases(seed: u64, count: usize) -> Vec<Base> {
 pub fn run(ctx: &Ctx) {
     let pr = r9::params();
     ctx.set_rule(
-        "signing cases are (ks, identity, message, r): ks from a small pool (so that the reference pairing g = e(P1,Ppub-s) is cached) and the edge-biased generator, identities of 0..64 bytes, messages of 0..1024 bytes, r injected through the RNG hook; \
+        "signing cases are (ks, representation of the master public key object: affine / as computed by g_mul / Z = 2 / random Z / Z with Montgomery limbs [1,0,0,0] / imaginary Z, identity, message, r): ks from a small pool (so that the reference pairing g = e(P1,Ppub-s) is cached) and the edge-biased generator, identities of 0..64 bytes, messages of 0..1024 bytes, r injected through the RNG hook; \
          tampering cases are (reference-made signature, tampering): every bit flip of h (256) and of the 64 bytes of S (512) for some bases, h in {0, 1, N-2, N-1, N, N+1, 2^256-1, h+-1}, S in {-S, S+P1, [2]S, another identity's S, off-curve, (0,0), infinity, \
          the same S with another Z (not an alteration)}, multi-byte alterations of h that preserve the xor, the sum or the multiset of its bytes or words, another message / identity / master public key. Oracles: exact (h, S) equality with the reference signer for the same r; h in [1,N-1], S on the curve; the library accepts its own and the reference's signatures; \
          for tamperings the reference verifier decides and a panic is a violation. Non-trivial: fixed-r comparison done, or a rejected tampering.",
@@ -369,7 +378,7 @@ pub fn run(ctx: &Ctx) {
     let seed0 = ctx.seed;
     let maxlen = ctx.tier.pick(200usize, 1024usize);
     ctx.exhaustive("message_lengths", "every message length 0..=200 (thorough 0..=1024) with r injected: exact (h, S) and library verification", move || {
-        (0..=maxlen).map(|l| Base { ks: gen::hex32(&BigUint::from(0xabcdef01u64)), ks_rel: 0, id_len: 1 + l % 9, id_seed: seed0 ^ l as u64, msg_len: l, msg_seed: seed0.wrapping_mul(31) ^ l as u64, r: Hex(expand_bytes(seed0 ^ 0x7777 ^ l as u64, 32)) }).collect()
+        (0..=maxlen).map(|l| Base { ks: gen::hex32(&BigUint::from(0xabcdef01u64)), ks_rel: ((l % 6) as u8) << 4, id_len: 1 + l % 9, id_seed: seed0 ^ l as u64, msg_len: l, msg_seed: seed0.wrapping_mul(31) ^ l as u64, r: Hex(expand_bytes(seed0 ^ 0x7777 ^ l as u64, 32)) }).collect()
     }, check_sign);
 
     let nrel = ctx.tier.pick(8u64, 60u64);
@@ -377,7 +386,7 @@ pub fn run(ctx: &Ctx) {
         let mut v = Vec::new();
         for i in 0..nrel {
             for rel in 1..=3u8 {
-                v.push(Base { ks: gen::hex32(&BigUint::one()), ks_rel: rel, id_len: 1 + (i as usize % 20), id_seed: seed0 ^ (0x4e1 + i), msg_len: (i as usize * 7) % 50, msg_seed: seed0 ^ i, r: Hex(expand_bytes(seed0 ^ 0x4e2 ^ i, 32)) });
+                v.push(Base { ks: gen::hex32(&BigUint::one()), ks_rel: rel | ((i % 6) as u8) << 4, id_len: 1 + (i as usize % 20), id_seed: seed0 ^ (0x4e1 + i), msg_len: (i as usize * 7) % 50, msg_seed: seed0 ^ i, r: Hex(expand_bytes(seed0 ^ 0x4e2 ^ i, 32)) });
             }
         }
         v
@@ -404,11 +413,18 @@ pub fn run(ctx: &Ctx) {
     ctx.listed("related_master_key_sequences", "sign + verify under ks, then N-ks (negated master public key: same x), then ks again, then ks+1 — executed in order on one thread inside one case, so that anything the library remembers between calls (memoised pairing values) is carried over", move || {
         let mut v = Vec::new();
         for i in 0..3u64 {
-            let b = |rel: u8, bump: u64, j: u64| Base { ks: gen::hex32(&(BigUint::from(0x5eed_0000u64 + i * 1000 + bump))), ks_rel: rel, id_len: 3 + i as usize, id_seed: seed ^ i, msg_len: 10 + j as usize, msg_seed: seed ^ (i << 8) ^ j, r: Hex(expand_bytes(seed ^ 0x5e9 ^ (i << 8) ^ j, 32)) };
+            let b = |rel: u8, bump: u64, j: u64| Base { ks: gen::hex32(&(BigUint::from(0x5eed_0000u64 + i * 1000 + bump))), ks_rel: rel | ((j % 6) as u8) << 4, id_len: 3 + i as usize, id_seed: seed ^ i, msg_len: 10 + j as usize, msg_seed: seed ^ (i << 8) ^ j, r: Hex(expand_bytes(seed ^ 0x5e9 ^ (i << 8) ^ j, 32)) };
             v.push(vec![b(0, 0, 0), b(4, 0, 1), b(0, 0, 2), b(0, 1, 3), b(4, 0, 4), b(4, 1, 5)]);
         }
         v
     }, |steps: &Vec<Base>| seq(steps, |b| { check_sign(b)?; check_ref_signed(b) }));
+
+    let zl_step = ctx.tier.pick(6usize, 1usize);
+    ctx.listed("nonces_with_zero_limbs", "r with an all-zero 64-bit limb below a non-zero limb (every 6th pattern in the quick tier): exact (h, S)", move || {
+        let n = &r9::params().n;
+        gen::zero_limb_scalars().into_iter().enumerate().filter(|(i, k)| i % zl_step == 0 && k < &(n - 1u32) && k > &BigUint::one())
+            .map(|(i, k)| Base { ks: gen::hex32(&BigUint::from(0xabcdef01u64)), ks_rel: ((i % 6) as u8) << 4, id_len: 4, id_seed: seed ^ 0x2e1, msg_len: 9, msg_seed: seed ^ i as u64, r: gen::hex32(&(&k - 1u32)) }).collect::<Vec<_>>()
+    }, check_sign);
 
     ctx.cold("cold_start_sign", "SM9 sign (r injected) as the first library operation of a fresh process", move || fixed_bases(seed ^ 0xc09d, 2), check_sign);
     ctx.cold("cold_start_verify", "SM9 verify as the first library operation of a fresh process: untouched, altered h, -S, other message", move || {
